@@ -2,17 +2,31 @@ import Nstd.Avl.LemmasCost
 /-
   Items never change identity while they live (the Map/MultiMap part of "elements never move"):
   after any op every item of the tree is still in the tree with the same id and key — its value
-  changes only when a Map insert assigns to its key — or has been released to the free list.
+  changes only when a Map insert assigns to its key — or the op is a removal designating exactly
+  this item (or `clear`) and its id has been released to the free list.
 -/
 namespace Nstd.Avl
 open Tree
 
-/-- what may happen to the item `e` during `op` producing state `s'` -/
-def Survives (multi : Bool) (op : Op) (s' : St) (e : E) : Prop :=
+/-- `op`, executed in state `s`, is a removal that designates the item `e` -/
+def Removes (s : St) (op : Op) (e : E) : Prop :=
+  match op with
+  | .removeAt p => s.t.inorder[p]? = some e
+  | .removeFront => s.t.inorder[0]? = some e
+  | .removeBack => s.t.inorder[s.size - 1]? = some e
+  | .removeKey k => ∃ p, s.findIdx k = some p ∧ s.t.inorder[p]? = some e
+  | .clear => True
+  | _ => False
+
+/-- what may happen to the item `e` of state `s` during `op` producing state `s'`: it stays as it is;
+    or (Map only) it stays with the same id and key and gets the value a (hinted) insert of its key
+    assigns; or `op` is a removal designating exactly this item (or `clear`) and its id goes to the
+    free list.  In particular no insert, lookup or rebalancing ever releases or re-creates an item. -/
+def Survives (s : St) (op : Op) (s' : St) (e : E) : Prop :=
   e ∈ s'.t.inorder ∨
-  (multi = false ∧ ∃ v, (e.1, e.2.1, v) ∈ s'.t.inorder ∧
+  (s.multi = false ∧ ∃ v, (e.1, e.2.1, v) ∈ s'.t.inorder ∧
       (op = .insert e.2.1 v ∨ ∃ p, op = .insertAt p e.2.1 v)) ∨
-  e.1 ∈ s'.free
+  (e.1 ∈ s'.free ∧ Removes s op e)
 
 theorem mem_insList_old (id : Nat) (k v : Int) (es : List E) (e : E) (he : e ∈ es) :
     e ∈ insList id k v es ∨ (e.2.1 = k ∧ (e.1, e.2.1, v) ∈ insList id k v es) := by
@@ -65,7 +79,7 @@ theorem insertRoot_survives (s : St) (hI : InvT s) (k v : Int) (c0 : Nat) (e : E
 
 theorem removeAt_survives (s : St) (hI : InvT s) (hO : InvO s) (p c0 : Nat) (r : St × Out)
     (h : s.removeAt p c0 = some r) (e : E) (he : e ∈ s.t.inorder) :
-    e ∈ r.1.t.inorder ∨ e.1 ∈ r.1.free := by
+    e ∈ r.1.t.inorder ∨ (e.1 ∈ r.1.free ∧ s.t.inorder[p]? = some e) := by
   unfold St.removeAt at h
   cases ho : s.order[p]? with
   | none => rw [ho] at h; simp at h
@@ -87,7 +101,7 @@ theorem removeAt_survives (s : St) (hI : InvT s) (hO : InvO s) (p c0 : Nat) (r :
         rw [hO.order]; simp [ids, List.getElem?_eq_getElem hj]
       rw [this] at ho
       simp only [Option.some.injEq] at ho
-      simp [ho]
+      exact ⟨by simp [ho], List.getElem?_eq_getElem hj⟩
     · left
       rw [List.mem_iff_getElem]
       by_cases hlt : j < p
@@ -98,7 +112,7 @@ theorem removeAt_survives (s : St) (hI : InvT s) (hO : InvO s) (p c0 : Nat) (r :
         congr 1; omega
 
 theorem step_survives (s : St) (hI : InvT s) (hO : InvO s) (op : Op) (r : St × Out) (h : step s op = some r)
-    (e : E) (he : e ∈ s.t.inorder) : Survives s.multi op r.1 e := by
+    (e : E) (he : e ∈ s.t.inorder) : Survives s op r.1 e := by
   unfold Survives
   cases op with
   | insert k v =>
@@ -148,15 +162,18 @@ theorem step_survives (s : St) (hI : InvT s) (hO : InvO s) (op : Op) (r : St × 
     · simp at h
   | removeKey k =>
     simp only [step] at h
-    split at h
-    · cases hr : s.removeAt _ (s.findCmps k) with
+    cases hf : s.findIdx k with
+    | none => rw [hf] at h; simp only [Option.some.injEq] at h; subst h; left; exact he
+    | some p =>
+      rw [hf] at h
+      simp only at h
+      cases hr : s.removeAt p (s.findCmps k) with
       | none => rw [hr] at h; simp at h
       | some r' =>
         rw [hr] at h; simp only [Option.map_some, Option.some.injEq] at h; subst h
         rcases removeAt_survives s hI hO _ _ r' hr e he with h | h
         · left; exact h
-        · right; right; exact h
-    · simp only [Option.some.injEq] at h; subst h; left; exact he
+        · right; right; exact ⟨h.1, p, hf, h.2⟩
   | removeAt p =>
     simp only [step] at h
     rcases removeAt_survives s hI hO _ _ r h e he with h | h
@@ -177,6 +194,7 @@ theorem step_survives (s : St) (hI : InvT s) (hO : InvO s) (op : Op) (r : St × 
   | clear =>
     simp only [step, Option.some.injEq] at h; subst h
     right; right
+    refine ⟨?_, trivial⟩
     simp only [List.mem_append, List.mem_reverse]
     left
     rw [hO.order]
